@@ -239,8 +239,12 @@ func (t *TNC) PartialFrame() (stream string, partial bool) {
 	t.mu.Lock()
 	defer t.mu.Unlock()
 	for _, k := range core.SortedKeys(t.framers) {
-		if t.framers[k].pending() {
-			return k, true
+		if fr := t.framers[k]; fr.pending() {
+			head := fr.raw
+			if len(head) > 24 {
+				head = head[:24]
+			}
+			return fmt.Sprintf("%s (%d bytes so far, beginning %q)", k, len(fr.raw), head), true
 		}
 	}
 	return "", false
